@@ -380,9 +380,502 @@ pub fn c02(ctx: &mut Ctx) {
     run_jobs(ctx, "VALIDATE", jobs);
 }
 
-pub fn c03(_ctx: &mut Ctx) {}
-pub fn c04(_ctx: &mut Ctx) {}
-pub fn c05(_ctx: &mut Ctx) {}
+
+/// A small fixed logical request (header carrier unless told otherwise) for sweeps.
+pub fn simple_logical(carrier: Carrier, time_ns: i128) -> Logical {
+    Logical {
+        method: "GET".into(),
+        segments: vec![b"a".to_vec(), b"b c".to_vec()],
+        trailing_slash: false,
+        query: vec![(b"Action".to_vec(), b"ListUsers".to_vec()), (b"Version".to_vec(), b"2010-05-08".to_vec())],
+        form: None,
+        content_type: None,
+        body: Vec::new(),
+        headers: vec![("Host".into(), b"example.amazonaws.com".to_vec())],
+        signed: vec!["host".into()],
+        carrier,
+        token: None,
+        time_ns,
+        time_style: (0, 0, 0),
+        use_date_header: false,
+        access_key: "AKIDEXAMPLE".into(),
+        secret: "wJalrXUtnFEMI/K7MDENG+bPxRfiCYEXAMPLEKEY".into(),
+        region: "us-east-1".into(),
+        service: "service".into(),
+        s3: false,
+        fold: false,
+        dup_date: None,
+    }
+}
+
+// ---------------------------------------------------------------------------------------------
+// C04 freshness
+
+pub fn c04(ctx: &mut Ctx) {
+    let mut rng = ctx.rng.fork();
+    // server instants: day, month, year, leap-day boundaries, years 0001 and 9999, plus ordinary ones
+    let mut servers: Vec<(i64, i64, i64, i64, i64, i64, u32)> = vec![
+        (2015, 8, 30, 12, 36, 0, 0),
+        (2016, 2, 29, 0, 0, 0, 0),
+        (2016, 3, 1, 0, 0, 5, 0),
+        (2015, 12, 31, 23, 59, 59, 999_999_999),
+        (2000, 2, 29, 23, 50, 0, 1),
+        (1, 1, 1, 0, 20, 0, 0),
+    ];
+    if ctx.thorough {
+        servers.extend([
+            (2016, 1, 1, 0, 0, 0, 0), (2015, 9, 1, 0, 7, 30, 0), (2100, 2, 28, 23, 55, 0, 0), (2100, 3, 1, 0, 10, 0, 500),
+            (9999, 12, 31, 23, 30, 0, 0), (1970, 1, 1, 0, 0, 0, 0), (1969, 12, 31, 23, 59, 59, 0), (2038, 1, 19, 3, 14, 7, 0),
+            (2024, 2, 29, 12, 0, 0, 0), (2023, 2, 28, 23, 59, 0, 0), (1900, 3, 1, 0, 0, 0, 0), (2000, 1, 1, 0, 0, 0, 0),
+            (1999, 12, 31, 23, 59, 59, 0), (2015, 8, 30, 23, 59, 59, 0), (2015, 8, 31, 0, 0, 0, 0), (2015, 6, 30, 23, 59, 59, 0),
+            (2012, 12, 31, 23, 45, 0, 0), (2013, 1, 1, 0, 14, 59, 0), (4000, 2, 29, 0, 0, 0, 0), (1, 12, 31, 23, 59, 59, 0),
+        ]);
+    }
+    let mut offsets: Vec<i128> = Vec::new();
+    for s in -1200i128..=1200 {
+        offsets.push(s * 1_000_000_000);
+    }
+    for b in [-900i128, 900] {
+        offsets.push(b * 1_000_000_000 - 1);
+        offsets.push(b * 1_000_000_000 + 1);
+    }
+    let styles: [(i64, u8, usize); 6] = [(0, 0, 0), (0, 15, 0), (0, 5, 0), (5400, 15 + 16, 0), (-28800, 0, 0), (0, 0, 3)];
+    let mut jobs = Vec::new();
+    let mut k = 0usize;
+    for sv in &servers {
+        let (y, mo, d, h, mi, s, ns) = *sv;
+        let now_secs = rs::days_from_civil(y, mo, d) * 86400 + h * 3600 + mi * 60 + s;
+        let now_ns = now_secs as i128 * 1_000_000_000 + ns as i128;
+        for off in &offsets {
+            let t = now_ns + off;
+            // the request instant must itself be renderable (year 0..9999 in its local zone)
+            let style = styles[k % styles.len()];
+            k += 1;
+            let local_days = (t.div_euclid(1_000_000_000) as i64 + style.0).div_euclid(86400);
+            if local_days < -719528 + 1 || local_days > 2932896 {
+                continue;
+            }
+            let mut l = simple_logical(if k % 3 == 0 { Carrier::Query } else { Carrier::Header }, t);
+            l.time_style = style;
+            if rs::civil_from_days(t.div_euclid(1_000_000_000).div_euclid(86400) as i64).0 < 0 {
+                continue;
+            }
+            let sg = sign_and_spell(&l, &mut rng, &Spelling::plain(), (now_secs, ns));
+            let inside = off.abs() <= 900 * 1_000_000_000;
+            let mut j = job(
+                sg.case,
+                if inside { Expect::Accept } else { Expect::Refuse(Some("SignatureDoesNotMatch")) },
+                if inside { "c04-inside" } else { "c04-outside" },
+                if inside {
+                    "C04: a correctly signed request inside the 15-minute window was refused"
+                } else {
+                    "C04: a request outside the 15-minute window was not refused as a signature mismatch before any key lookup"
+                },
+            );
+            j.expect_calls = Some(if inside { 1 } else { 0 });
+            jobs.push(j);
+            if ctx.rep.samples.len() < 4 && off.abs() == 900 * 1_000_000_000 {
+                ctx.rep.sample(format!("server {}-{:02}-{:02}T{:02}:{:02}:{:02}.{:09} request offset {} ns rendered \"{}\"", y, mo, d, h, mi, s, ns, off, render_time(t, style)));
+            }
+        }
+        run_jobs(ctx, "VALIDATE", std::mem::take(&mut jobs));
+    }
+    ctx.rep.add("exhaustive.offsets_per_server", offsets.len() as u64);
+    ctx.rep.add("servers", servers.len() as u64);
+    // random nanosecond pairs (thorough only adds more)
+    for _ in 0..ctx.n(2000, 40000) {
+        let base = rng.range(-62135596800 + 90000, 253402300799 - 90000);
+        let now = (base, rng.range(0, 999_999_999) as u32);
+        let off = rng.range(-1_000_000_000_000, 1_000_000_000_000) as i128 * if rng.chance(1, 2) { 1 } else { 2 };
+        let off = if rng.chance(1, 4) { (if rng.chance(1, 2) { 900i128 } else { -900 }) * 1_000_000_000 + rng.range(-3, 3) as i128 } else { off };
+        let t = now.0 as i128 * 1_000_000_000 + now.1 as i128 + off;
+        if rs::civil_from_days(t.div_euclid(1_000_000_000).div_euclid(86400) as i64).0 < 1 {
+            continue;
+        }
+        let mut l = simple_logical(Carrier::Header, t);
+        l.time_style = (0, rng.below(16) as u8, 0);
+        let sg = sign_and_spell(&l, &mut rng, &Spelling::plain(), now);
+        let inside = off.abs() <= 900 * 1_000_000_000;
+        let mut j = job(sg.case, if inside { Expect::Accept } else { Expect::Refuse(Some("SignatureDoesNotMatch")) }, if inside { "c04-inside" } else { "c04-outside" }, "C04: accept iff |t - now| <= 15 min");
+        j.expect_calls = Some(if inside { 1 } else { 0 });
+        jobs.push(j);
+    }
+    run_jobs(ctx, "VALIDATE", jobs);
+}
+
+// ---------------------------------------------------------------------------------------------
+// C03 credential scope
+
+fn replace_credential(c: &mut Case, old: &str, new: &str) {
+    for (n, v) in c.headers.iter_mut() {
+        if n.eq_ignore_ascii_case("authorization") {
+            *v = String::from_utf8_lossy(v).replace(old, new).into_bytes();
+        }
+    }
+    let enc_old = String::from_utf8(rs::encode(old.as_bytes())).unwrap();
+    let enc_new = String::from_utf8(rs::encode(new.as_bytes())).unwrap();
+    c.uri = c.uri.replace(&enc_old, &enc_new);
+}
+
+pub fn c03(ctx: &mut Ctx) {
+    let mut rng = ctx.rng.fork();
+    let mut jobs = Vec::new();
+    let n = ctx.n(150, 3000);
+    for i in 0..n {
+        let mut l = random_logical(&mut rng);
+        // timestamps within 2 s of midnight UTC, with zone offsets, for a third of the cases
+        if i % 3 == 0 {
+            let day = rng.range(16000, 20000);
+            l.time_ns = (day as i128 * 86400 + rng.range(-2, 2) as i128) * 1_000_000_000;
+            l.time_style = (*rng.pick(&[0i64, 3600, -3600, 5 * 3600 + 1800, -8 * 3600, 14 * 3600]), rng.below(32) as u8, 0);
+        }
+        let now = now_for(&l, rng.range(-300, 300) as i128 * 1_000_000_000);
+        let s = sign_and_spell(&l, &mut rng, &Spelling::plain(), now);
+        // the reference-signed request is accepted and the provider is asked for exactly this scope
+        let mut j = job(s.case.clone(), Expect::Accept, "c03-valid", "C03: in-scope request refused");
+        j.expect_calls = Some(1);
+        jobs.push(j);
+        let (ak, date, region, service) = (l.access_key.clone(), s.scope_date.clone(), l.region.clone(), l.service.clone());
+        // near-miss credentials: the request keeps its (now stale) signature, the rule decides first
+        let day_before = rs::ref_compact(l.time_ns - 86_400_000_000_000).1;
+        let day_after = rs::ref_compact(l.time_ns + 86_400_000_000_000).1;
+        let local_date = {
+            let t = l.time_ns + l.time_style.0 as i128 * 1_000_000_000;
+            rs::ref_compact(t).1
+        };
+        let mut variants: Vec<String> = vec![
+            format!("{}/{}/{}/{}", ak, date, region, service),
+            format!("{}/{}/{}/{}/aws4_request/x", ak, date, region, service),
+            format!("{}/{}/{}/{}/aws4_request/", ak, date, region, service),
+            format!("/{}/{}/{}/{}/aws4_request", ak, date, region, service),
+            format!("{}", ak),
+            String::new(),
+            format!("{}//{}/{}/aws4_request", ak, region, service),
+            format!("{}/{}/{}x/{}/aws4_request", ak, date, region, service),
+            format!("{}/{}/{}/{}x/aws4_request", ak, date, region, service),
+            format!("{}/{}/{}/{}/aws4_requestx", ak, date, region, service),
+            format!("{}/{}/{}/{}/AWS4_REQUEST", ak, date, region, service),
+            format!("{}/{}/{}/{}/aws4_reques", ak, date, region, service),
+            format!("{}/{}/{}/{}/aws4_request", ak, date, region.to_uppercase(), service),
+            format!("{}/{}/{}/{}/aws4_request", ak, date, &region[..region.len() - 1], service),
+            format!("{}/{}/{}/{}/aws4_request", ak, date, region, service.to_uppercase()),
+            format!("{}/{}/{}/{}/aws4_request", ak, date, service, region),
+            format!("{}/{}/{}/{}/aws4_request", ak, day_before, region, service),
+            format!("{}/{}/{}/{}/aws4_request", ak, day_after, region, service),
+            format!("{}/{}/{}/{}/aws4_request", ak, &date[..6], region, service),
+            format!("{}/{}T/{}/{}/aws4_request", ak, date, region, service),
+            format!("{}/{}/{}/{}/aws4_request", ak, "", region, service),
+            format!("{}/{}/{}/{}/", ak, date, region, service),
+            format!("{}/{}/{}//aws4_request", ak, date, region),
+            format!("{}/{}/{}/{}/aws4_request", ak, local_date, region, service),
+            format!("a/b/c/d/e/f/g/h"),
+        ];
+        if !ctx.thorough {
+            rng.shuffle(&mut variants);
+            variants.truncate(10);
+        }
+        for v in variants {
+            if v == s.credential {
+                continue;
+            }
+            // commas, spaces and '=' would change the Authorization syntax rather than the credential
+            let parts: Vec<&str> = v.split('/').collect();
+            let expect = if parts.len() != 5 {
+                Expect::Refuse(Some("IncompleteSignature"))
+            } else if parts[1] == date && parts[2] == region && parts[3] == service && parts[4] == "aws4_request" {
+                Expect::Refuse(Some("SignatureDoesNotMatch")) // scope right, only the access key changed: signature check
+            } else {
+                Expect::Refuse(Some("SignatureDoesNotMatch"))
+            };
+            let scope_ok = parts.len() == 5 && parts[1] == date && parts[2] == region && parts[3] == service && parts[4] == "aws4_request";
+            let mut c = s.case.clone();
+            replace_credential(&mut c, &s.credential, &v);
+            let mut j = job(c, expect, "c03-nearmiss", "C03: credential arity != 5 must be IncompleteSignature (400); any other scope mismatch SignatureDoesNotMatch (403) with no key lookup");
+            j.expect_calls = Some(if scope_ok { 1 } else { 0 });
+            jobs.push(j);
+        }
+        // foreign scope, correctly signed under the foreign scope's key, key provider would hand out that key
+        {
+            let mut lf = l.clone();
+            if i % 2 == 0 {
+                lf.region = format!("{}-foreign", l.region);
+            } else {
+                lf.service = format!("{}2", l.service);
+            }
+            let mut sf = sign_and_spell(&lf, &mut rng, &Spelling::plain(), now);
+            sf.case.region = l.region.clone();
+            sf.case.service = l.service.clone();
+            let mut j = job(sf.case, Expect::Refuse(Some("SignatureDoesNotMatch")), "c03-foreign-scope", "C03: a request signed for a foreign scope (with that scope's key on offer) was not refused as SignatureDoesNotMatch without key lookup");
+            j.expect_calls = Some(0);
+            jobs.push(j);
+        }
+        // signed with the local-zone date instead of the UTC date, when they differ
+        if local_date != date {
+            ctx.rep.count("gen.local_date_differs");
+        }
+        if jobs.len() > 4000 {
+            let done = run_jobs(ctx, "VALIDATE", std::mem::take(&mut jobs));
+            check_calls(ctx, done);
+        }
+        if ctx.rep.samples.len() < 4 {
+            ctx.rep.sample(format!("credential {} at {}", s.credential, render_time(l.time_ns, l.time_style)));
+        }
+    }
+    let done = run_jobs(ctx, "VALIDATE", jobs);
+    check_calls(ctx, done);
+}
+
+/// For accepted requests: the provider saw exactly (access key, token, UTC date, server region, server service).
+fn check_calls(ctx: &mut Ctx, done: Vec<Done>) {
+    for d in done {
+        if d.imp.class != "OK" || d.job.class != "c03-valid" {
+            continue;
+        }
+        let c = &d.job.case;
+        // expected values recomputed from the case itself
+        let auth = c.headers.iter().find(|(n, _)| n.eq_ignore_ascii_case("authorization")).map(|(_, v)| String::from_utf8_lossy(v).to_string());
+        let cred = match &auth {
+            Some(a) => a.split("Credential=").nth(1).map(|r| r.split(',').next().unwrap().trim().to_string()),
+            None => c.uri.split("X-Amz-Credential=").nth(1).map(|r| {
+                let enc = r.split('&').next().unwrap();
+                String::from_utf8(rs::decode(enc.as_bytes(), true).unwrap()).unwrap()
+            }),
+        };
+        let cred = cred.unwrap_or_default();
+        let parts: Vec<&str> = cred.split('/').collect();
+        let call = &d.imp.calls[0];
+        let date = format!("{:04}{:02}{:02}", chrono::Datelike::year(&call.date), chrono::Datelike::month(&call.date), chrono::Datelike::day(&call.date));
+        if parts.len() != 5 || call.access_key != parts[0] || date != parts[1] || call.region != c.region || call.service != c.service {
+            ctx.rep.fail(Failure {
+                kind: "ORACLE",
+                op: "VALIDATE".into(),
+                class: "c03-provider-args".into(),
+                input: d.imp_line.clone(),
+                imp: call.show(),
+                model: d.model_line.clone(),
+                spec: cred.clone(),
+                clause: "C03: the key provider was not asked for exactly the request's access key, UTC date and the server's region and service".into(),
+            });
+        }
+    }
+}
+
+// ---------------------------------------------------------------------------------------------
+// C05 mandatory signed headers
+
+fn required_ok(always: &[String], ifreq: &[String], prefixes: &[String], headers: &[(String, Vec<u8>)], signed: &[String]) -> bool {
+    let names: Vec<String> = headers.iter().map(|(n, _)| n.to_ascii_lowercase()).collect();
+    let has = |n: &str| signed.iter().any(|s| s == n);
+    (has("host") || has(":authority"))
+        && always.iter().all(|a| has(&a.to_ascii_lowercase()))
+        && ifreq.iter().all(|c| !names.contains(&c.to_ascii_lowercase()) || has(&c.to_ascii_lowercase()))
+        && prefixes.iter().all(|p| names.iter().all(|n| !n.starts_with(&p.to_ascii_lowercase()) || has(n)))
+}
+
+pub fn c05(ctx: &mut Ctx) {
+    let mut rng = ctx.rng.fork();
+    let mut jobs = Vec::new();
+    let pool = ["X-Amz-Meta-A", "x-amz-meta-b", "Accept", "My-Header1", "X-Amz-Target", "User-Agent", "Content-Type", "X-Amz-Date", "Host", "X-Absent"];
+    let prefixes_pool = ["X-Amz-", "x-amz-meta-", "My-", "Z-", "X-AMZ-TARGET", "a", ""];
+    let n = ctx.n(600, 12000);
+    for i in 0..n {
+        let mut l = random_logical(&mut rng);
+        l.use_date_header = false;
+        let mix = |rng: &mut Rng, s: &str| -> String { s.chars().map(|c| if rng.chance(1, 2) { c.to_ascii_uppercase() } else { c.to_ascii_lowercase() }).collect() };
+        let mut always = Vec::new();
+        let mut ifreq = Vec::new();
+        let mut prefixes = Vec::new();
+        for _ in 0..rng.below(3) {
+            let pick: &str = *rng.pick(&pool);
+            let n = mix(&mut rng, pick);
+            always.push(n);
+        }
+        for _ in 0..rng.below(3) {
+            let pick: &str = *rng.pick(&pool);
+            let n = mix(&mut rng, pick);
+            ifreq.push(n);
+        }
+        for _ in 0..rng.below(3) {
+            let pick: &str = *rng.pick(&prefixes_pool);
+            let n = mix(&mut rng, pick);
+            prefixes.push(n);
+        }
+        // half of the time make the signer comply: sign everything the requirements demand
+        let comply = i % 2 == 0;
+        let now = now_for(&l, 0);
+        if comply {
+            for a in &always {
+                let a = a.to_ascii_lowercase();
+                if !l.signed.contains(&a) {
+                    l.signed.push(a);
+                }
+            }
+            for (n, _) in l.headers.clone() {
+                let nl = n.to_ascii_lowercase();
+                let wanted = ifreq.iter().any(|c| c.to_ascii_lowercase() == nl) || prefixes.iter().any(|p| nl.starts_with(&p.to_ascii_lowercase()));
+                if wanted && !l.signed.contains(&nl) {
+                    l.signed.push(nl);
+                }
+            }
+            if l.content_type.is_some() && !l.signed.contains(&"content-type".to_string()) {
+                l.signed.push("content-type".into());
+            }
+        }
+        let sp = if i % 4 < 2 { Spelling::plain() } else { Spelling::random(&mut rng) };
+        let mut s = sign_and_spell(&l, &mut rng, &sp, now);
+        s.case.always = always.clone();
+        s.case.ifreq = ifreq.clone();
+        s.case.prefixes = prefixes.clone();
+        s.case.vec_reqs = rng.chance(1, 2);
+        let ok = required_ok(&always, &ifreq, &prefixes, &s.case.headers, &s.signed_names);
+        ctx.rep.count(if ok { "gen.requirements_met" } else { "gen.requirements_violated" });
+        let mut j = job(
+            s.case.clone(),
+            if ok { Expect::Accept } else { Expect::Refuse(Some("SignatureDoesNotMatch")) },
+            if ok { "c05-met" } else { "c05-violated" },
+            "C05: accepted iff host/:authority, every always-required, every present conditionally-required and every prefix-matched header is signed (correctly signed requests that omit one must be refused with 403, no key lookup)",
+        );
+        j.expect_calls = Some(if ok { 1 } else { 0 });
+        jobs.push(j);
+        // the same request through the other requirements implementation must give the same verdict
+        let mut c2 = s.case.clone();
+        c2.vec_reqs = !c2.vec_reqs;
+        let mut j2 = job(c2, if ok { Expect::Accept } else { Expect::Refuse(Some("SignatureDoesNotMatch")) }, if ok { "c05-met" } else { "c05-violated" }, "C05: both requirement containers must agree");
+        j2.expect_calls = Some(if ok { 1 } else { 0 });
+        jobs.push(j2);
+        if ctx.rep.samples.len() < 5 {
+            ctx.rep.sample(format!("reqs always={:?} if_in_request={:?} prefixes={:?} signed={:?} -> {}", always, ifreq, prefixes, s.signed_names, if ok { "met" } else { "violated" }));
+        }
+        if jobs.len() > 4000 {
+            run_jobs(ctx, "VALIDATE", std::mem::take(&mut jobs));
+        }
+    }
+    // host missing from the signed list; :authority instead of host
+    for _ in 0..ctx.n(50, 500) {
+        let mut l = random_logical(&mut rng);
+        l.signed.retain(|s| s != "host");
+        l.headers.push(("X-Other".into(), b"1".to_vec()));
+        l.signed.push("x-other".into());
+        let now = now_for(&l, 0);
+        let s = sign_and_spell(&l, &mut rng, &Spelling::plain(), now);
+        let mut j = job(s.case, Expect::Refuse(Some("SignatureDoesNotMatch")), "c05-no-host", "C05: host (or :authority) must be signed");
+        j.expect_calls = Some(0);
+        jobs.push(j);
+    }
+    run_jobs(ctx, "VALIDATE", jobs);
+}
+
+// ---------------------------------------------------------------------------------------------
+// C19 duplicated inputs
+
+pub fn c19(ctx: &mut Ctx) {
+    let mut rng = ctx.rng.fork();
+    let mut jobs = Vec::new();
+    let n = ctx.n(150, 3000);
+    let clause = "C19: a duplicated authentication input must be resolved by the documented rule";
+    for _ in 0..n {
+        let mut l = random_logical(&mut rng);
+        l.carrier = Carrier::Header;
+        l.use_date_header = false;
+        let now = now_for(&l, 0);
+        let s = sign_and_spell(&l, &mut rng, &Spelling::plain(), now);
+        let auth_idx = s.case.headers.iter().position(|(n, _)| n.eq_ignore_ascii_case("authorization")).unwrap();
+        let good = s.case.headers[auth_idx].1.clone();
+        let bad_sig: String = s.signature.chars().rev().collect();
+        let bad = String::from_utf8_lossy(&good).replace(&s.signature, &bad_sig).into_bytes();
+        // (a) two Authorization headers: the first one counts
+        for (first, second, accept) in [(good.clone(), bad.clone(), true), (bad.clone(), good.clone(), false)] {
+            let mut c = s.case.clone();
+            c.headers[auth_idx].1 = first;
+            c.headers.push(("Authorization".into(), second));
+            jobs.push(job(c, if accept { Expect::Accept } else { Expect::Refuse(Some("SignatureDoesNotMatch")) }, "c19-two-authorization", clause));
+        }
+        // (b) repeated parameter inside the Authorization header: the last one counts
+        for (a, b, accept) in [(bad_sig.clone(), s.signature.clone(), true), (s.signature.clone(), bad_sig.clone(), false)] {
+            let mut c = s.case.clone();
+            let v = format!("AWS4-HMAC-SHA256 Credential={}, SignedHeaders={}, Signature={}, Signature={}", s.credential, s.signed_names.join(";"), a, b);
+            c.headers[auth_idx].1 = v.into_bytes();
+            jobs.push(job(c, if accept { Expect::Accept } else { Expect::Refuse(Some("SignatureDoesNotMatch")) }, "c19-repeated-auth-param", clause));
+        }
+        {
+            let mut c = s.case.clone();
+            let v = format!("AWS4-HMAC-SHA256 Credential=AKIDOTHER/20000101/x/y/aws4_request, Credential={}, SignedHeaders=host, SignedHeaders={}, Signature={}", s.credential, s.signed_names.join(";"), s.signature);
+            c.headers[auth_idx].1 = v.into_bytes();
+            jobs.push(job(c, Expect::Accept, "c19-repeated-auth-param", clause));
+        }
+        // (c) X-Amz-Date twice: the first; X-Amz-Date in preference to Date
+        let date_idx = s.case.headers.iter().position(|(n, _)| n.eq_ignore_ascii_case("x-amz-date")).unwrap();
+        let good_date = s.case.headers[date_idx].1.clone();
+        let other_date = render_time(l.time_ns + 61_000_000_000, (0, 0, 0)).into_bytes();
+        {
+            // a second, different X-Amz-Date after the first (both signed, as one line "d1,d2"): the first counts
+            let mut l2 = l.clone();
+            l2.dup_date = Some(other_date.clone());
+            let s2 = sign_and_spell(&l2, &mut rng, &Spelling::plain(), now);
+            jobs.push(job(s2.case, Expect::Accept, "c19-two-x-amz-date", clause));
+            let _ = (&good_date, date_idx);
+        }
+        {
+            // a Date header with another instant besides X-Amz-Date: X-Amz-Date is used
+            let mut l3 = l.clone();
+            l3.headers.insert(0, ("Date".into(), other_date.clone()));
+            let s3 = sign_and_spell(&l3, &mut rng, &Spelling::plain(), now);
+            jobs.push(job(s3.case, Expect::Accept, "c19-date-and-x-amz-date", clause));
+        }
+        // (d) two security-token headers: the provider sees the first
+        {
+            let mut l4 = l.clone();
+            l4.token = None;
+            l4.headers.push(("X-Amz-Security-Token".into(), b"FIRSTTOKEN".to_vec()));
+            l4.headers.push(("X-Amz-Security-Token".into(), b"SECONDTOKEN".to_vec()));
+            l4.signed.push("x-amz-security-token".into());
+            let s4 = sign_and_spell(&l4, &mut rng, &Spelling::plain(), now);
+            let mut j = job(s4.case, Expect::Accept, "c19-two-tokens", clause);
+            j.expect_calls = Some(1);
+            jobs.push(j);
+        }
+        // (e) both carriers
+        {
+            let mut c = s.case.clone();
+            c.uri = if c.uri.contains('?') { format!("{}&X-Amz-Algorithm=AWS4-HMAC-SHA256", c.uri) } else { format!("{}?X-Amz-Algorithm=AWS4-HMAC-SHA256", c.uri) };
+            let mut j = job(c, Expect::Refuse(Some("SignatureDoesNotMatch")), "c19-both-carriers", "C19: a request with an Authorization header and an X-Amz-Algorithm parameter must be refused");
+            j.expect_calls = Some(0);
+            jobs.push(j);
+        }
+        // (f) query carrier: repeated X-Amz-* parameter, the first value counts
+        {
+            let mut lq = l.clone();
+            lq.carrier = Carrier::Query;
+            let sq = sign_and_spell(&lq, &mut rng, &Spelling::plain(), now);
+            // a second X-Amz-Signature / X-Amz-Date / X-Amz-Credential after the real one is part of the
+            // signed query (except the signature parameter, which is excluded), so only the signature can
+            // be duplicated without re-signing
+            let mut c1 = sq.case.clone();
+            c1.uri = format!("{}&X-Amz-Signature={}", c1.uri, bad_sig);
+            jobs.push(job(c1, Expect::Accept, "c19-repeated-query-param", clause));
+            let mut c2 = sq.case.clone();
+            c2.uri = c2.uri.replace(&format!("X-Amz-Signature={}", sq.signature), &format!("X-Amz-Signature={}&X-Amz-Signature={}", bad_sig, sq.signature));
+            jobs.push(job(c2, Expect::Refuse(Some("SignatureDoesNotMatch")), "c19-repeated-query-param", clause));
+        }
+        if jobs.len() > 4000 {
+            let done = run_jobs(ctx, "VALIDATE", std::mem::take(&mut jobs));
+            check_first_token(ctx, done);
+        }
+    }
+    let done = run_jobs(ctx, "VALIDATE", jobs);
+    check_first_token(ctx, done);
+}
+
+fn check_first_token(ctx: &mut Ctx, done: Vec<Done>) {
+    for d in done {
+        if d.job.class == "c19-two-tokens" && d.imp.class == "OK" {
+            if d.imp.calls[0].token.as_deref() != Some("FIRSTTOKEN") {
+                ctx.rep.fail(Failure { kind: "ORACLE", op: "VALIDATE".into(), class: "c19-two-tokens".into(), input: d.imp_line.clone(), imp: d.imp.calls[0].show(), model: d.model_line, spec: "FIRSTTOKEN".into(), clause: "C19: the first security-token header must be the one given to the provider".into() });
+            }
+        }
+    }
+}
+
 pub fn c08(_ctx: &mut Ctx) {}
 pub fn c11(_ctx: &mut Ctx) {}
 pub fn c12(_ctx: &mut Ctx) {}
@@ -391,4 +884,3 @@ pub fn c14(_ctx: &mut Ctx) {}
 pub fn c15(_ctx: &mut Ctx) {}
 pub fn c17(_ctx: &mut Ctx) {}
 pub fn c18(_ctx: &mut Ctx) {}
-pub fn c19(_ctx: &mut Ctx) {}
